@@ -457,8 +457,21 @@ class Origins:
                 whole.append(d)
             elif kind == "stmt" and not obj.place.proj:
                 whole.append(d)
-        if len(whole) <= 1 or getattr(self, "cfg", None) is None:
+        if getattr(self, "cfg", None) is None:
             return ds, True
+        if len(whole) <= 1:
+            # no competing definitions: still drop (partial) definitions that cannot flow to `at`
+            if not hasattr(self, "_reach_cache"):
+                self._reach_cache = {}
+            out = []
+            for d in ds:
+                r = self._reach_cache.get(d[1])
+                if r is None:
+                    r = self.cfg.reach([d[1]])
+                    self._reach_cache[d[1]] = r
+                if at in r:
+                    out.append(d)
+            return out, True
         wb = set(d[1] for d in whole)
         out = []
         for d in ds:
